@@ -41,4 +41,10 @@ theorem holds_host_broker_uses_client_dir (clientDir : Option String) : Hygiene.
 theorem holds_one_slot_per_id (together : Bool) : Hygiene.slotsAfterRendezvous Facts.hygiene together = 1 :=
   Props.Hygiene.one_slot_per_id _ (by decide) together
 
+theorem holds_brokered_server_has_cert (certViaCallback : Bool) : Hygiene.brokeredServerHasCert Facts.hygiene certViaCallback = true :=
+  Props.Hygiene.brokered_server_has_cert _ (by decide) certViaCallback
+
+theorem holds_socket_names_never_collide (k j : Nat) : Hygiene.socketNamesCanCollide Facts.hygiene k j = false :=
+  Props.Hygiene.socket_names_never_collide _ (by decide) k j
+
 end GoPlugin.Instance.C07
